@@ -2,6 +2,7 @@
 from __future__ import annotations
 
 import itertools
+import re
 
 SCHEMA_L = '''
 directive @tag(v: String, l: [String!]) repeatable on FIELD | QUERY | FRAGMENT_SPREAD | INLINE_FRAGMENT | FRAGMENT_DEFINITION | VARIABLE_DEFINITION
@@ -97,9 +98,23 @@ OWN_FIELD = {"User": "age", "Node": "id", "Named": "name", "U": "__typename"}
 ROOT_FIELD = {"User": "user", "Node": "node", "Named": "named", "U": "u"}
 
 
-def fragment_graphs(n_frag, type_sets, nested_variants=(False, True)):
+def fragment_graphs(n_frag, type_sets, nested_variants=(False, True), names=None):
     """All DAGs over F1..Fn (edges i->j only for i<j), each fragment typed from `type_sets`.
+    `names` (optional) renames F1..Fn, so that alphabetical order and dependency order can disagree.
     Yields dict(name, doc_text, ops, frag_types, edges, nested, tags)."""
+    for g in _fragment_graphs(n_frag, type_sets, nested_variants):
+        if names:
+            # two-step rename through placeholders (names may themselves be a permutation of F1..Fn)
+            txt = g["doc_text"]
+            for i in range(n_frag, 0, -1):
+                txt = re.sub(rf"\bF{i}\b", f"\0{i}\0", txt)
+            for i in range(1, n_frag + 1):
+                txt = txt.replace(f"\0{i}\0", names[i - 1])
+            g = dict(g, doc_text=txt, frag_names=tuple(names), tags=g["tags"] | {"renamed_fragments"})
+        yield g
+
+
+def _fragment_graphs(n_frag, type_sets, nested_variants=(False, True)):
     idx = list(range(1, n_frag + 1))
     all_edges = [(i, j) for i in idx for j in idx if i < j]
     k = 0
